@@ -323,6 +323,8 @@ class Unit:
         self.counts = {}
         self.labels = {}         # label -> dict(line, props, fn)
         self.cur_fn = None
+        self.lenient = False     # lenient: sidecar blocks whose body anchor is lost are dropped instead of aborting
+        self.dropped = []
 
     def emit(self, text, src=None):
         for l in text.split("\n"):
@@ -395,6 +397,9 @@ class Unit:
             if kind != which:
                 continue
             c = text.count(old)
+            if (c == 0 or (cnt is not None and c != cnt)) and getattr(self, "lenient", False) and c == 0:
+                self.dropped.append("rewrite \"%s\" in %s no longer applies" % (old, where))
+                continue
             if c == 0 or (cnt is not None and c != cnt):
                 raise ExtractError("lost anchor: rewrite \"%s\" expected %s occurrence(s) in %s, found %d"
                                    % (old, cnt if cnt is not None else ">=1", where, c))
@@ -507,6 +512,9 @@ class Unit:
             if kind == "loop":
                 occ = [x for x in re.finditer(r"\b(while|loop|for)\b", bm)]
                 if len(occ) < nth:
+                    if getattr(self, "lenient", False):
+                        self.dropped.append("%s: loop#%d (invariants/decreases dropped)" % (fid, nth))
+                        continue
                     raise ExtractError("lost anchor: %s has %d loops, wanted #%d" % (fid, len(occ), nth))
                 o = occ[nth - 1]
                 # opening brace of the loop body: first `{` at paren depth 0 after the keyword
@@ -539,6 +547,9 @@ class Unit:
                         occ.append(p)
                     p = body.find(needle, p + 1)
                 if len(occ) < nth:
+                    if getattr(self, "lenient", False):
+                        self.dropped.append("%s: %s#%d \"%s\" (proof hint dropped)" % (fid, kind, nth, needle))
+                        continue
                     raise ExtractError("lost anchor: `%s` occurs %d times in %s, wanted #%d" % (needle, len(occ), fid, nth))
                 p = occ[nth - 1]
                 if kind == "before":
@@ -721,6 +732,7 @@ class Unit:
             "rewrite_counts": self.counts,
             "labels": self.labels,
             "line_src": [s for (t, s) in self.lines],
+            "dropped_hints": self.dropped,
         }
 
 
